@@ -129,6 +129,7 @@ func (s *Syncer) syncLoop(ctx context.Context, env *lmdb.Env, r *receiver.Receiv
 		// Sync to shadow using a time in the past to not overwrite newer data.
 		// At least it allows us to save newer entries that were added
 		// while the syncer was not running. It will not save updated entries.
+		s.verifYield("boot.capture")
 		s.l.Info("Syncing main to shadow, in case data was changed before start")
 		err := env.Update(func(txn *lmdb.Txn) error {
 			// We would like to just use timestamp 0 here, but that
@@ -149,6 +150,7 @@ func (s *Syncer) syncLoop(ctx context.Context, env *lmdb.Env, r *receiver.Receiv
 	// be a snapshot from this instance that we do not want to overwrite
 	// with an empty one in the LMDB was reset.
 	if hasDataAtStart && !hasSnapshots {
+		s.verifYield("boot.send")
 		s.l.Info("Performing initial snapshot, because none exists yet")
 		actualTxnID, err := s.SendOnce(ctx, env)
 		if err != nil {
@@ -193,6 +195,7 @@ func (s *Syncer) syncLoop(ctx context.Context, env *lmdb.Env, r *receiver.Receiv
 		// snapshot when local changes are detected.
 		// TODO: LSE: Maybe also add MaxConsecutiveUpdateLoads, or base this on time?
 		nLoads := 0
+		s.verifYield("loop.top")
 	loadReadySnapshotsLoop:
 		for {
 			instance, update := r.Next()
@@ -284,6 +287,7 @@ func (s *Syncer) syncLoop(ctx context.Context, env *lmdb.Env, r *receiver.Receiv
 			).Info("Snapshot overdue, forcing one")
 		}
 
+		s.verifYield("check.info")
 		// Check for change in local LMDB
 		info, err := env.Info()
 		if err != nil {
@@ -340,6 +344,7 @@ func (s *Syncer) syncLoop(ctx context.Context, env *lmdb.Env, r *receiver.Receiv
 			return nil
 		}
 
+		s.verifYield("loop.sleep")
 		// Sleep before next check for snapshots and local changes
 		if err := utils.SleepContext(ctx, s.c.LMDBPollInterval); err != nil {
 			return err
@@ -350,6 +355,8 @@ func (s *Syncer) syncLoop(ctx context.Context, env *lmdb.Env, r *receiver.Receiv
 func (s *Syncer) LoadOnce(ctx context.Context, env *lmdb.Env, instance string, update snapshot.Update, lastTxnID header.TxnID) (txnID header.TxnID, localChanged bool, err error) {
 	t0 := time.Now() // for performance measurements
 	snap := update.Snapshot
+	t0 = verifClock(t0)
+	s.verifYield("load.begin")
 
 	var tTxnAcquire time.Time
 	var tShadow1Start time.Time
@@ -366,6 +373,7 @@ func (s *Syncer) LoadOnce(ctx context.Context, env *lmdb.Env, instance string, u
 		tTxnAcquire = ts
 		tsNano := header.TimestampFromTime(ts)
 		txnID = header.TxnID(txn.ID())
+		tsNano = header.TimestampFromTime(verifClock(ts))
 
 		// There was a local change if the update transaction ID was more than 1
 		// higher than the last transaction ID we took a snapshot of.
@@ -523,6 +531,7 @@ func (s *Syncer) LoadOnce(ctx context.Context, env *lmdb.Env, instance string, u
 		return 0, false, err
 	}
 	tLoaded := time.Now()
+	s.verifYield("load.after_txn")
 
 	// If no actual changes were made, LMDB will not record the transaction
 	// and reuse the ID the next time, so we need to adjust the txnID we return.
@@ -560,6 +569,7 @@ func (s *Syncer) LoadOnce(ctx context.Context, env *lmdb.Env, instance string, u
 		"extra":             update.NameInfo.Extra.String(),
 	}).Debug("Loaded remote update (with timings)")
 
+	s.verifYield("load.end")
 	s.lastByInstance[instance] = update.NameInfo.Timestamp
 
 	return txnID, localChanged, nil
